@@ -463,10 +463,17 @@ def check(prop, tier, seed, only=None, only_bin=None):
     # ---- 1b. has the anchored Rust text moved since the model was written?  then compare as deeply as we can
     drifted = ANCHORS.drift(prop, REPO)
     requested_tier = tier
-    if (drifted or translator_unavailable) and tier == "quick" and only is None and os.environ.get("VERIF_NO_ESCALATE") != "1":
+    # the models are pure functions of their arguments: state that outlives a call (seed C17-4: a thread-local memo) is outside
+    # them.  Not a violation by itself (a correct cache keeps every property), but the run is then as deep as we can make it.
+    stateful = ANCHORS.mutable_statics(REPO)
+    if stateful:
+        log("[%s] the library now declares state that outlives a call (%s): the models are stateless" % (prop, "; ".join(stateful[:4])))
+    cov.update(library_state_outliving_a_call=stateful)
+    if (drifted or translator_unavailable or stateful) and tier == "quick" and only is None and os.environ.get("VERIF_NO_ESCALATE") != "1":
         tier = "thorough"
-        log("[%s] anchored source differs from the baseline in %d place(s) (%s%s): escalating the correspondence run to "
-            "the thorough generators" % (prop, len(drifted), ", ".join(drifted[:4]), " ..." if len(drifted) > 4 else ""))
+        log("[%s] anchored source differs from the baseline in %d place(s) (%s%s)%s: escalating the correspondence run to "
+            "the thorough generators" % (prop, len(drifted), ", ".join(drifted[:4]), " ..." if len(drifted) > 4 else "",
+                                         " and holds state" if stateful else ""))
     cov.update(source_drift=drifted, correspondence_tier=tier,
                anchored_functions_not_named_by_any_harness=ANCHORS.not_named(prop, REPO))
 
